@@ -41,6 +41,20 @@ pub fn event_budget(n_chars: usize) -> usize {
 pub fn generate(run_seed: u64, corpus: &Corpus, sw: &Swarm, i: u64, exhaustive: u64) -> Case {
     if i < exhaustive {
         // first the context x follower cases, then the token strings, then the character strings
+        // first every regular input family at a size where its repeated thing is counted past 2^16
+        let nf = crate::scale::FAMILIES.len() as u64;
+        let i = match crate::batch::spread(i, nf) {
+            Ok(k) => {
+                return Case {
+                    prop: "C10".into(),
+                    gen: "X-family-mega".into(),
+                    text: crate::scale::render(crate::scale::FAMILIES[k as usize], 700_000),
+                    ..Case::default()
+                }
+            }
+            Err(j) => j,
+        };
+        let exhaustive = exhaustive - nf;
         let ctx = crate::gen::count_context_cases();
         if i < ctx {
             return Case { prop: "C10".into(), gen: "X-context-follower".into(), text: crate::gen::nth_context_case(i), ..Case::default() };
@@ -103,7 +117,10 @@ pub fn execute(case: &Case, record_seed: Option<u64>) -> Outcome {
         // The reference itself crashed or spun: that is C01's finding, not a back-end divergence.
         out.summary = format!("reference {}", reference.end.describe());
     } else {
-        for kind in FIXED_CANDIDATES.iter().chain(case.extra_inputs.iter()) {
+        // the megabyte cases go through one candidate of each kind
+        let mega = [InputKind::BufferedBare, InputKind::Str, InputKind::Ring(16, Policy::PerCall), InputKind::Ring(128, Policy::Leave), InputKind::Slice(64)];
+        let fixed: &[InputKind] = if case.gen == "X-family-mega" { &mega } else { &FIXED_CANDIDATES };
+        for kind in fixed.iter().chain(case.extra_inputs.iter()) {
             clock::rearm(work_budget(n));
             clock::fp_mix(0xC10);
             let t = with_parser(*kind, &prep, IterateAll { max_events: event_budget(n) });
